@@ -94,15 +94,14 @@ theorem targetOK_dot (t : Str) (h : targetOK t = true) (hp : startsWith t ['.', 
 
 theorem subOK_facts (m : Str) (h : subOK m = true) :
     ¬ '%' ∈ m ∧ ¬ '\\' ∈ m ∧ splitBy NodeExports.isSep m = splitBy (· = '/') m ∧
-    (∀ seg ∈ splitBy (· = '/') m, seg ≠ [] ∧ canonSeg seg = true) ∧
-    badSegment ((splitBy (· = '/') m).headD []) = false := by
+    (∀ seg ∈ splitBy (· = '/') m, seg ≠ [] ∧ canonSeg seg = true) := by
   simp only [subOK, plainStr, Bool.and_eq_true, Bool.not_eq_true', List.all_eq_true] at h
-  obtain ⟨⟨⟨hpc, hbs⟩, hall⟩, hhead⟩ := h
+  obtain ⟨⟨hpc, hbs⟩, hall⟩ := h
   have hpc' : ¬ '%' ∈ m := by simpa using hpc
   have hbs' : ¬ '\\' ∈ m := by simpa using hbs
   have hsp := splitBy_isSep_eq m hbs'
-  rw [hsp] at hall hhead
-  refine ⟨hpc', hbs', hsp, ?_, hhead⟩
+  rw [hsp] at hall
+  refine ⟨hpc', hbs', hsp, ?_⟩
   intro seg hm
   have := hall seg hm
   simp only [Bool.and_eq_true, Bool.not_eq_true', List.isEmpty_eq_false_iff] at this
@@ -160,43 +159,34 @@ theorem target_str (strict isImports : Bool) (conds : List Str) (t : Str) (pm : 
       cases pm with
       | none =>
         simp only [Option.getD_none, Option.isSome_none, Bool.false_eq_true, ↓reduceIte]
-        have : findInvalidSegment [] = none := by decide
+        have : findInvalidSegment ['.', '/'] = none := by decide
         simp only [this, Option.isSome_none, Bool.false_eq_true, ↓reduceIte]
         rw [goClean_root rest (fun s hm => (hgood s hm).1)]
         rfl
       | some m =>
-        obtain ⟨mpc, mbs, msp, mall, mhead⟩ := subOK_facts m (hpm m rfl)
+        obtain ⟨mpc, mbs, msp, mall⟩ := subOK_facts m (hpm m rfl)
         simp only [Option.getD_some, Option.isSome_some, ↓reduceIte]
-        have hfm : findInvalidSegment m = ((splitBy (· = '/') m).drop 1).find? badSegment := by
-          simp only [findInvalidSegment, splitAt_eq, isSep_eq, msp]
-        rw [hfm, msp]
-        have hany : (splitBy (· = '/') m).any (invalidSegment strict) =
-            (((splitBy (· = '/') m).drop 1).find? badSegment).isSome := by
-          rw [find?_isSome_eq_any]
-          rw [any_congr' _ badSegment _ (fun seg hm => invalidSegment_eq strict seg (mall seg hm).1 (mall seg hm).2)]
-          cases hs : splitBy (· = '/') m with
-          | nil => rfl
-          | cons a as =>
-            rw [hs] at mhead
-            simp only [List.headD_cons] at mhead
-            simp [List.any, mhead]
-        rw [hany]
-        cases hinvm : (((splitBy (· = '/') m).drop 1).find? badSegment).isSome
+        -- findInvalidSegment("./" + subpath) looks at every segment of subpath
+        have hfm : findInvalidSegment ('.' :: '/' :: m) = (splitBy (· = '/') m).find? badSegment := by
+          have hb2 : ¬ '\\' ∈ ('.' :: '/' :: m) := by
+            intro hc
+            simp only [List.mem_cons] at hc
+            rcases hc with hc | hc | hc
+            · cases hc
+            · cases hc
+            · exact mbs hc
+          simp only [findInvalidSegment, splitAt_eq, isSep_eq, splitBy_isSep_eq _ hb2, splitBy_dot_slash,
+            List.drop_succ_cons, List.drop_zero]
+        rw [hfm, msp, target_segments_agree strict m mall]
+        cases hinvm : ((splitBy (· = '/') m).find? badSegment).isSome
         · -- the pattern match is valid
           simp only [Bool.false_eq_true, ↓reduceIte]
           rw [toTR_exactish, replaceAllStar_eq]
           have hnbm : ∀ seg ∈ splitBy (· = '/') m, badSegment seg = false := by
             intro seg hm
-            cases hs : splitBy (· = '/') m with
-            | nil => rw [hs] at hm; cases hm
-            | cons a as =>
-              rw [hs] at hm mhead hinvm
-              simp only [List.headD_cons] at mhead
-              simp only [List.drop_succ_cons, List.drop_zero, find?_isSome_eq_any] at hinvm
-              rcases List.mem_cons.mp hm with rfl | hm'
-              · exact mhead
-              · have := List.any_eq_false.mp hinvm seg hm'
-                simpa using this
+            rw [find?_isSome_eq_any] at hinvm
+            have := List.any_eq_false.mp hinvm seg hm
+            simpa using this
           have hstar : replaceStar ('/' :: rest) m = '/' :: replaceStar rest m := by
             simp [replaceStar]
           rw [hstar]
